@@ -943,15 +943,17 @@ Lemma pavf_rep o n h r cols prev f :
   print_arg_val_f (S f) o (VRep n h :: r) cols prev = print_range (print_arg_val_f f) o (VRep n h :: r) cols prev.
 Proof. reflexivity. Qed.
 
-Lemma print_range_const o n a0 y cols prev t w c' :
+Lemma print_range_const o n a0 y0 cols prev t w c' :
   compress o = true -> 0 < n -> scalar a0 ->
   print_scalar o a0 (cols + len (print_d n ++ [120])) = Some (t, w, c') ->
-  print_arg_val o [VRep n 0; a0; VSpc y] cols prev
+  print_arg_val o [VRep n 0; a0; VSpc y0] cols prev
   = Some ((print_d n ++ [120]) ++ t, len (print_d n ++ [120]) + w, c', false).
 Proof.
   intros Hon Hn Hs Hp. unfold print_arg_val. rewrite pavf_rep. unfold print_range. cbv beta iota.
   rewrite Hon. replace (n =? 0) with false by lia. cbn [negb orb Z.eqb].
-  rewrite (pav_scalar o a0 _ _ None 4 Hs), Hp. reflexivity.
+  assert (Hm : forall (A : Type) (x y : A), match a0 :: [VSpc y0] with VArr _ _ :: _ => x | _ => y end = y)
+    by (intros; destruct a0; cbn in Hs; try contradiction; reflexivity).
+  rewrite Hm. rewrite (pav_scalar o a0 _ _ None 4 Hs), Hp. reflexivity.
 Qed.
 
 Definition notconf (prev : option av) (k : ikind) (x : Z) : Prop :=
@@ -1100,7 +1102,9 @@ Proof.
   - rewrite <- Ed in *. now apply print_range_const.
   - unfold print_arg_val. rewrite pavf_rep. unfold print_range. cbv beta iota.
     rewrite Hon. replace (n =? 0) with false by lia. cbn [negb orb Z.eqb].
-    rewrite (pav_scalar o a0 _ _ None 4 Hs). rewrite Ed, E. reflexivity.
+    assert (Hm : forall (A : Type) (x z : A), match a0 :: [VSpc y] with VArr _ _ :: _ => x | _ => z end = z)
+      by (intros; destruct a0; cbn in Hs; try contradiction; reflexivity).
+    rewrite Hm. rewrite (pav_scalar o a0 _ _ None 4 Hs). rewrite Ed, E. reflexivity.
 Qed.
 
 Lemma print_iter a0 rest size prev t tmp cols cols1 bb cv :
@@ -1211,6 +1215,19 @@ Fixpoint iseq_from (pend : bool) (p : option av) (its : list item) (sfx : list Z
 Lemma iorig_app a b : iorig (a ++ b) = iorig a ++ iorig b.
 Proof. unfold iorig. now rewrite map_app, concat_app. Qed.
 
+Lemma conv_yes_head args size c kk :
+  convert_to_range o args size = CYes c kk -> exists n h r, c = VRep n h :: r.
+Proof.
+  unfold convert_to_range.
+  repeat match goal with
+         | |- context [if ?b then _ else _] => destruct b
+         | |- context [match ?x with _ => _ end] => destruct x
+         end; intros H; inversion H; eauto.
+Qed.
+
+Lemma top_plain inp cols prev b : hd_type inp <> 97 -> print_arg_val_top o inp cols prev b = print_arg_val o inp cols prev.
+Proof. destruct inp as [|v r]; [reflexivity|]. destruct v; cbn [hd_type av_type]; intros H; try reflexivity. congruence. Qed.
+
 Lemma print_loop_iseq : forall fuel args prev i n acc pend wrt cols awtl text w,
   Forall goodc args -> Z.of_nat (length args) < 2 ^ 31 -> n = i + Z.of_nat (length args) ->
   (args = [] -> pend = false) -> (forall p, prev = Some p -> scalar p) ->
@@ -1226,6 +1243,10 @@ Proof.
     exists [], []. rewrite app_nil_r, (Hpe eq_refl). cbn. repeat split; lia.
   - cbn [length] in Hn. replace (n <=? i) with false in Hrun by lia.
     destruct (convert_to_range o (a0 :: rest) (n - i)) as [|c kk|] eqn:Ecv; [| |discriminate].
+    1: rewrite top_plain in Hrun
+         by (pose proof (Forall_inv Hg) as Hg0; destruct a0; cbn in Hg0; try contradiction; cbn; lia).
+    2: destruct (conv_yes_head _ _ _ _ Ecv) as (n0 & h0 & r0 & Ec0); rewrite Ec0 in Hrun;
+       rewrite top_plain in Hrun by (cbn; lia); rewrite <- Ec0 in Hrun.
     all: match type of Hrun with context [print_arg_val ?oo ?inp ?cc ?pp] =>
            destruct (print_arg_val oo inp cc pp) as [[[[t tmp] cols1] bb]|] eqn:Epr; [|discriminate] end.
     all: match type of Ecv with _ = ?cv =>
